@@ -138,6 +138,19 @@ class C10(Prop):
                             mode="mixed" if i % 2 else "fifo", unsub_p=0.15)
             out.append(Case("time", "threads", [("locktrace", ["1"]), ("pipe", [pipe])], evs,
                             {"kind": "time-locktrace"}))
+        # a subscriber that feeds the source of its OWN pipeline from inside its callback, every hop through a scheduler
+        # task (delay_threads / observe_on_threads; the count-down family of C07): the emission is made while the
+        # delivering task's handle is held — every call must still return (seed C10-9: `retain` asked every handle of the
+        # composite, the one the thread was holding included)
+        try:
+            c07 = importlib.import_module("vlib.props.c07").PROP
+            for c in c07.cases("quick", seed):
+                if c.meta.get("kind") == "feedback" and c.flavor == "threads":
+                    d = c.copy()
+                    d.meta = {"kind": "feedback-threads"}
+                    out.append(d)
+        except Exception as ex:
+            print(f"note: C10 skips the feedback family: {ex}")
         # lock traces of the other thread-safe suites (harness field `ltrace`, any suite): finalize_threads chains,
         # group_by over SubjectThreads, share/ref_count, the subject family — no re-lock, acyclic held-before
         for name, cap in (("c15", 1500), ("c20", 1000), ("c11", 1000), ("subject", 1000)):
